@@ -225,6 +225,18 @@ def level0():
     for op in ("UNION", "UNION ALL", "INTERSECT", "EXCEPT"):
         qs.append(setop(op, select([t], [([R("t", "a")], "o0"), ([R("t", "b")], "o1")]), select([u], [([R("u", "a")], "o0"), ([R("u", "d")], "o1")])))
     qs.append(setop("UNION ALL", select([t], [([R("t", "c")], "o0"), (["1"], "o1")]), select([u], [(["2"], "o0"), ([R("u", "d")], "o1")])))
+    # three and four operands (left-deep): names and positions are those of the left-most SELECT at every nesting level
+    A = lambda: select([t], [([R("t", "a")], "o0"), ([R("t", "b")], "o1")])
+    B = lambda: select([u], [([R("u", "a")], "o0"), ([R("u", "d")], "o1")])
+    C = lambda: select([t], [([R("t", "c")], "o0"), ([R("t", "a")], "o1")])
+    qs.append(setop("UNION ALL", setop("UNION ALL", A(), B()), C()))
+    qs.append(setop("EXCEPT", setop("UNION", A(), B()), C()))
+    qs.append(setop("UNION", setop("INTERSECT", setop("UNION ALL", A(), B()), C()), B()))
+    # one table alias bound to different base tables in different scopes, both reading a column of the same name
+    tx, ux = base("t", "x"), base("u", "x")
+    qs.append(setop("UNION ALL", select([tx], [([R("x", "a")], "o0"), ([R("x", "c")], "o1")]), select([ux], [([R("x", "a")], "o0"), ([R("x", "d")], "o1")])))
+    qs.append(select([derived(select([tx], [([R("x", "a")], "k"), ([R("x", "b")], "v")]), "s1"), derived(select([ux], [([R("x", "a")], "k"), ([R("x", "d")], "v")]), "s2")],
+                     [([R("s1", "k"), " + ", R("s2", "k")], "o0"), ([R("s1", "v")], "o1"), ([R("s2", "v")], "o2")], on=[R("s1", "k"), " = ", R("s2", "k")]))
     return qs
 
 
@@ -271,6 +283,7 @@ def wrappers(rel, which=None):
 
 
 DEEP = ["pass", "star", "collist", "twice", "setop", "scalar"]
+QUICK_L2 = ["pass", "swap", "star", "expr", "reuse", "collist", "join-base", "twice", "setop"]  # second wrapping level of the quick tier
 NDEEP = 4
 # every generated query is valid in these (bigquery is not: it has no bare UNION); snowflake normalises to upper case
 DIALECTS = ("snowflake", "mysql", "postgres")
@@ -281,11 +294,11 @@ def queries(tier):
     wrappers over depth 2 (depth 3); thorough: every wrapper at depth 3 and the DEEP wrappers at depth 4"""
     l0 = [(f"l0.{i}", q) for i, q in enumerate(level0())]
     l1 = [(f"{p}>{k}", w) for p, q in l0 for k, w in wrappers(q)]
-    l2 = [(f"{p}>{k}", w) for p, q in l1 for k, w in wrappers(q)]
+    l2 = [(f"{p}>{k}", w) for p, q in l1 for k, w in wrappers(q, None if tier != "quick" else QUICK_L2)]
     d0 = [(f"dup.{i}", q) for i, q in enumerate(level0_dup())]
     l0 = l0 + d0 + [(f"{p}>{k}", w) for p, q in d0 for k, w in wrappers(q, ["collist", "collist-star"])]
     if tier == "quick":
-        l3 = [(f"{p}>{k}", w) for p, q in l2 for k, w in wrappers(q, DEEP[:NDEEP])]
+        l3 = [(f"{p}>{k}", w) for p, q in l2[::2] for k, w in wrappers(q, DEEP[:NDEEP])]  # every other depth-2 query
         return l0 + l1 + l2 + l3
     l3 = [(f"{p}>{k}", w) for p, q in l2 for k, w in wrappers(q)]
     l4 = [(f"{p}>{k}", w) for p, q in l3[::7] for k, w in wrappers(q, DEEP[:NDEEP])]
@@ -367,7 +380,7 @@ def check(item):
         d = got["derived"]
         inp = {"path": path, "column": name, "dialect": dialect}
         if d[0] == "exc":
-            viol.append((f"c17:exception:{d[1]}:{qfam}", f"lineage({name!r}, {fs['derived'][0]!r}) raised {d[1]}: {d[2]}", dict(inp, form="derived")))
+            viol.append((f"c17:exception:{d[1]}:derived:{qfam}", f"lineage({name!r}, {fs['derived'][0]!r}) raised {d[1]}: {d[2]}", dict(inp, form="derived")))
         else:
             if want - d[1]:
                 viol.append((f"c17:missing-leaf:{fam}", f"lineage({name!r}, {fs['derived'][0]!r}): leaves {_fmt(d[1])}, flow {_fmt(want)}", dict(inp, form="derived")))
@@ -388,7 +401,7 @@ def check(item):
             text, sources = fs[form]
             shown = text if not sources else f"{text} with sources={sources}"
             if g[0] == "exc":
-                viol.append((f"c17:exception:{g[1]}:{qfam}", f"lineage({name!r}, {shown!r}) raised {g[1]}: {g[2]}", dict(inp, form=form)))
+                viol.append((f"c17:exception:{g[1]}:{form}:{qfam}", f"lineage({name!r}, {shown!r}) raised {g[1]}: {g[2]}", dict(inp, form=form)))
             elif d[0] == "ok" and g[1] != d[1]:
                 viol.append((f"c17:{clause}:{fam}", f"lineage({name!r}, {shown!r}): leaves {_fmt(g[1])}; derived-table form {fs['derived'][0]!r}: {_fmt(d[1])}; flow {_fmt(want)}",
                              dict(inp, form=form)))
@@ -467,7 +480,7 @@ def run(tier, seed):
         "evaluations": evals,
         "distinct_nontrivial": evals,
         "rule": "(query, dialect, output column) triples: every one compares the lineage leaves of four renderings with the constructed flow",
-        "bound": f"tier={tier}: {nq} constructed queries (14 base shapes, 13 wrappers, derived-table depth <= {3 if tier == 'quick' else 4}; deepest level restricted to the wrappers "
+        "bound": f"tier={tier}: {nq} constructed queries (21 base shapes, 14 wrappers, derived-table depth <= {3 if tier == 'quick' else 4}; deepest level restricted to the wrappers "
                  f"{DEEP[:NDEEP]}) x default dialect, plus depth <= {1 if tier == 'quick' else 2} x {DIALECTS}; 4 forms per column",
         "exhaustive": True,
         "queries": nq,
